@@ -108,7 +108,10 @@ def menu():
     m.append(("transform_x64", 47, [(f"a{a.hex()}p{p.hex()}", Pt, P.procinj_transform(a, p).ljust(256, b"\x00")) for a, p in tf]))
     ex = [["CreateThread"], ["SetThreadContext", "CreateRemoteThread", "RtlCreateUserThread", "NtQueueApcThread", "NtQueueApcThread-s"], [("CreateThread_", 0x10, b"ntdll.dll", b"RtlUserThreadStart"), ("CreateRemoteThread_", 0, b"kernel32.dll", b"LoadLibraryA")],
           ["CreateThread", "SetThreadContext", "CreateRemoteThread", "RtlCreateUserThread", "NtQueueApcThread", ("CreateThread_", 1, b"a", b"b"), ("CreateRemoteThread_", 0xFFFF, b"m", b"f"), "NtQueueApcThread-s"], [],
-          [("CreateThread_", 0, b'"mod', b'fn"'), ("CreateRemoteThread_", 2, b'm"', b'"f')], [("CreateThread_", 0, b"mo d", b"f\\n")]]
+          [("CreateThread_", 0, b'"mod', b'fn"'), ("CreateRemoteThread_", 2, b'm"', b'"f')], [("CreateThread_", 0, b"mo d", b"f\\n")],
+          # a method named more than once: the list is a list, every entry is stated, in order
+          ["CreateThread", "SetThreadContext", ("CreateThread_", 0, b"ntdll", b"RtlUserThreadStart"), "NtQueueApcThread-s", "SetThreadContext", "RtlCreateUserThread", "CreateThread"],
+          ["RtlCreateUserThread", "RtlCreateUserThread"]]
     m.append(("execute", 51, [(f"list{i}", Pt, P.execute_list(e).ljust(128, b"\x00")) for i, e in enumerate(ex)]))
     m.append(("allocator", 52, [(v, Sh, struct.pack(">H", v)) for v in (0, 1)]))
     for lab, idx in (("dns_beacon", 60), ("dns_get_a", 61), ("dns_get_aaaa", 62), ("dns_get_txt", 63), ("dns_put_md", 64), ("dns_put_out", 65), ("dnsresolver", 66)):
